@@ -8,10 +8,12 @@
    bytes - it is the MTI, the bitmap and exactly the data elements whose bit is set in the unpacked bitmap
    (C14_set_adds, C14_unset_removes, C14_unpack_set; fixed bitmaps: C14_bitmap_is_getfields_fixed); what Unpack leaves
    below the set is C10. Message.Marshal of a struct over the MTI and primitive data elements adds exactly the ids of
-   its non-zero indexed fields (C14_marshal_set). The clause about Unmarshal-into-struct and the no-resurrection clause for paths are checked
+   its non-zero indexed fields (C14_marshal_set). Unsetting a subfield path of a composite (any depth): nothing at the path is
+   populated afterwards, the object there is as new - so nothing below it can come back -, and every path that does not
+   pass through it is populated exactly as before (C14_unset_path). The clause about Unmarshal-into-struct and the no-resurrection clause for paths are checked
    by the oracle (reference set, resurrection check, and: a fresh message given exactly the observable values packs to
    the same bytes after every step of every history). *)
-From Iso Require Import Model.Base Model.Bitmap Model.Spec Model.Field Model.Message Model.Json Model.MessageOps Proofs.BaseLemmas Proofs.StateProofs Proofs.MessageRoundtrip Proofs.PresenceProofs Model.Marshal Proofs.MarshalStruct.
+From Iso Require Import Model.Base Model.Bitmap Model.Spec Model.Field Model.Message Model.Json Model.MessageOps Proofs.BaseLemmas Proofs.StateProofs Proofs.MessageRoundtrip Proofs.PresenceProofs Model.Marshal Proofs.MarshalStruct Proofs.UnsetPathProofs.
 
 Theorem C14_bitmap_is_getfields : forall S m m' b, bm_auto (ms_bm S) = true -> 1 <= bm_len (ms_bm S) ->
   m_pack S m = (m', Ok b) ->
@@ -69,3 +71,16 @@ Proof.
   intros S l m Hok Hst Hnd. destruct (marshal_rows S l m Hok Hst Hnd) as (m' & Hm & _ & Hp & _). exists m'. split; [exact Hm|exact Hp].
 Qed.
 Print Assumptions C14_marshal_set.
+
+(* UnsetSubfields(path), any depth: the subfield and everything below it is discarded, nothing else is touched *)
+Theorem C14_unset_path :
+  (forall path s st st', path <> [] -> comp_unset_path s st path = (st', Ok tt) -> set_at st' path = false) /\
+  (forall path s st st' sp, path <> [] -> comp_unset_path s st path = (st', Ok tt) -> set_at st path = true ->
+     spec_at s path = Some sp -> state_at st path <> None ->
+     state_at st' path = Some (fresh sp) /\ forall q, q <> [] -> set_at (fresh sp) q = false) /\
+  (forall path s st st' o, comp_unset_path s st path = (st', o) -> forall q, is_prefix path q = false -> set_at st' q = set_at st q).
+Proof.
+  split; [exact unset_path_discards|]. split; [|exact unset_path_frame].
+  intros path s st st' sp Hne H Hs Hsp Hst. split; [apply (unset_path_fresh path s st st' sp Hne H Hs Hsp Hst)|]. intros q Hq. apply fresh_nothing_set. exact Hq.
+Qed.
+Print Assumptions C14_unset_path.
